@@ -338,7 +338,7 @@ func checkStringSwitch(p *Prog, r *Report, rule string, fn *ssa.Function, allowe
 			continue
 		}
 		bo, ok := ifi.Cond.(*ssa.BinOp)
-		if !ok || bo.Op != token.EQL {
+		if !ok || (bo.Op != token.EQL && bo.Op != token.NEQ) {
 			continue
 		}
 		if s, isC := constStr(bo.Y); isC {
@@ -364,7 +364,7 @@ func checkStringSwitch(p *Prog, r *Report, rule string, fn *ssa.Function, allowe
 		facts := FactsAtBlock(b)
 		nFalse := 0
 		for _, f := range facts {
-			if bo, ok := f.Cond.(*ssa.BinOp); ok && bo.Op == token.EQL && !f.Val {
+			if bo, ok := f.Cond.(*ssa.BinOp); ok && ((bo.Op == token.EQL && !f.Val) || (bo.Op == token.NEQ && f.Val)) {
 				if _, isC := constStr(bo.Y); isC {
 					nFalse++
 				}
